@@ -157,4 +157,49 @@ Section P.
     { unfold has_gt. apply existsb_exists. exists c_gt. split; [exact Hin|apply N.eqb_refl]. }
     rewrite Hg. reflexivity.
   Qed.
+  (* ---------- the whole serialisation never panics ---------- *)
+
+  (* every Prefix event the generator produces is tagged with an element *)
+  Definition prefix_on_element (e : zipper * output) : Prop :=
+    match snd e with OPrefix _ _ => element_of (fst e) <> None | _ => True end.
+
+  Lemma gen_outputs_prefix_on_element z : Forall prefix_on_element (gen_outputs nm z).
+  Proof.
+    unfold gen_outputs. apply Forall_forall. intros [c o] Hin. apply in_flat_map in Hin as [e [_ Hin]].
+    destruct e as [c'|c']; apply in_map_iff in Hin as [o' [Heq Ho]]; inversion Heq; subst; unfold prefix_on_element; cbn [fst snd].
+    - unfold edge_start_outputs in Ho. unfold element_of. destruct (z_val c) eqn:Ev; try (destruct o; auto; discriminate).
+      all: try (cbn in Ho; destruct Ho as [<-|[]]; exact I).
+      all: try (destruct Ho).
+    - unfold edge_end_outputs in Ho. destruct (z_val c); try destruct Ho as [<-|[]]; try exact I; destruct Ho.
+  Qed.
+
+  Lemma hrender_no_panic_tagged cdata st c o : prefix_on_element (c, o) -> hrender nm hn cdata st c o <> HPanic.
+  Proof.
+    intros H. destruct o; try (apply hrender_no_panic; intros; discriminate).
+    unfold prefix_on_element in H. cbn [fst snd] in H. cbn [hrender]. destruct (element_of c); [|congruence].
+    repeat match goal with |- context [if ?c then _ else _] => destruct c end; discriminate.
+  Qed.
+
+  Lemma hserialize_go_no_panic cdata evs : forall st buf, Forall prefix_on_element evs -> hserialize_go nm hn cdata st evs buf <> HPanic.
+  Proof.
+    induction evs as [|[c o] evs IH]; intros st buf H; cbn [hserialize_go]; [discriminate|]. inversion H; subst.
+    pose proof (hrender_no_panic_tagged cdata st c o ltac:(assumption)) as Hr.
+    destruct (hrender nm hn cdata st c o) as [[st' t]|e|]; [apply IH; assumption|discriminate|congruence].
+  Qed.
+
+  Lemma hserialize_pretty_go_no_panic cdata is_sup is_inl evs : forall st ps buf, Forall prefix_on_element evs ->
+    hserialize_pretty_go nm hn cdata is_sup is_inl st ps evs buf <> HPanic.
+  Proof.
+    induction evs as [|[c o] evs IH]; intros st ps buf H; cbn [hserialize_pretty_go]; [discriminate|]. inversion H; subst.
+    destruct (prettify nm is_sup is_inl ps c o) as [[ps' ind] nl].
+    pose proof (hrender_no_panic_tagged cdata st c o ltac:(assumption)) as Hr.
+    destruct (hrender nm hn cdata st c o) as [[st' t]|e|]; [apply IH; assumption|discriminate|congruence].
+  Qed.
+
+  Theorem html5_serialize_no_panic cdata indent z : html5_serialize nm hn cdata indent z <> HPanic.
+  Proof.
+    unfold html5_serialize. destruct indent.
+    - apply hserialize_pretty_go_no_panic. apply gen_outputs_prefix_on_element.
+    - apply hserialize_go_no_panic. apply gen_outputs_prefix_on_element.
+  Qed.
 End P.
